@@ -82,6 +82,10 @@ def rows(cell):
     U = pb.Unit
     look, atmo, tw, bullet, mode = cell[:5]
     ex = cell[5] if len(cell) > 5 else None
+    if ex and ex.get('prefs'):
+        # the columns are physical quantities: which units they are DISPLAYED in (here: joule, kilogram, metres, m/s, mil) changes none of them
+        for slot, un in (('energy', 'Joule'), ('ogw', 'Kilogram'), ('distance', 'Meter'), ('velocity', 'MPS'), ('drop', 'Centimeter'), ('adjustment', 'Mil'), ('angular', 'Mil')):
+            setattr(pb.PreferredUnits, slot, pb.Unit[un])
     calc = make_calc()
     shot = _shot(look, atmo, tw, bullet, extra=ex)
     shot0 = _shot(look, atmo, 0.0, bullet, extra=ex)
@@ -273,5 +277,6 @@ def plan(tier):
     cells += [[lk, a, tw, 'full', mode, ex] for lk in (0.0, 20.0) for a in ('icao', 'hot') for tw in (12.0, -8.0) for mode in ('plain', 'extra', 'incomplete')
               for ex in ({'wind': True}, {'cant': 30.0, 'rel': 10.0}, {'wind': True, 'cant': -20.0})]
     cells += [[0.0, a, tw, 'full', 'back', {'back': b}] for a in ('icao', 'hot') for tw in (12.0, 0.0) for b in ('blown', 'reverse')]
+    cells += [[lk, a, 12.0, 'full', mode, {'prefs': True}] for lk in (0.0, 20.0) for a in ('icao', 'hot') for mode in ('plain', 'extra', 'incomplete')]
     pw = [[m, t, tw, a] for m in (0.02, -0.015, 0.0) for t in (35.0, -10.0, 15.0) for tw in (12.0, -8.0) for a in ('icao', 'hot')]
     return [('rows', cells), ('reuse', ru), ('powder', pw)]
